@@ -346,8 +346,8 @@ Qed.
 
 (* ---------- decoder: one-step equations for every octet value and both states ---------- *)
 
-Lemma decode_step_escape m rest esc :
-  gsm_decode_loop m (ESCAPE :: rest) esc = gsm_decode_loop m rest true.
+Lemma decode_step_escape m rest :
+  gsm_decode_loop m (ESCAPE :: rest) false = gsm_decode_loop m rest true.
 Proof. cbn [gsm_decode_loop]. unfold decode_char. rewrite Z.eqb_refl. reflexivity. Qed.
 
 Lemma decode_step_basic m b c rest :
@@ -386,21 +386,18 @@ Proof.
 Qed.
 
 Lemma decode_step_ext m x c rest :
-  x <> ESCAPE -> lookup x gsm_extended_decode_map = Some c ->
+  lookup x gsm_extended_decode_map = Some c ->
   gsm_decode_loop m (x :: rest) true = rmap (cons c) (gsm_decode_loop m rest false).
-Proof.
-  intros Hx Hl. cbn [gsm_decode_loop]. unfold decode_char.
-  apply Z.eqb_neq in Hx. rewrite Hx, Hl. reflexivity.
-Qed.
+Proof. intros Hl. cbn [gsm_decode_loop]. unfold decode_char. rewrite Hl. reflexivity. Qed.
 
-(* escape followed by a code without extension entry: exactly one placeholder, in every mode *)
+(* escape followed by ANY code without extension entry - the escape code itself included: exactly one placeholder, in every mode *)
 Lemma decode_step_ext_unmapped m x rest :
-  x <> ESCAPE -> lookup x gsm_extended_decode_map = None ->
+  lookup x gsm_extended_decode_map = None ->
   gsm_decode_loop m (x :: rest) true = rmap (cons NO_BREAK_SPACE) (gsm_decode_loop m rest false).
-Proof.
-  intros Hx Hl. cbn [gsm_decode_loop]. unfold decode_char.
-  apply Z.eqb_neq in Hx. rewrite Hx, Hl. reflexivity.
-Qed.
+Proof. intros Hl. cbn [gsm_decode_loop]. unfold decode_char. rewrite Hl. reflexivity. Qed.
+
+Lemma escape_has_no_extension_entry : lookup ESCAPE gsm_extended_decode_map = None.
+Proof. vm_compute. reflexivity. Qed.
 
 Lemma decode_trailing_escape m :
   gsm_decode_loop m [] true =
@@ -423,7 +420,7 @@ Proof.
     + destruct (lookup c gsm_extended_encode_map) as [code|] eqn:E2.
       * destruct (to_gsm_codes m s) as [r|] eqn:Er; [|discriminate]. injection H as <-.
         destruct (ext_enc_sound _ _ E2) as [Hne [Hd _]].
-        rewrite decode_step_escape, (decode_step_ext m' code c r Hne Hd), (IH r Hs eq_refl m').
+        rewrite decode_step_escape, (decode_step_ext m' code c r Hd), (IH r Hs eq_refl m').
         reflexivity.
       * unfold in_alphabet in Hc. rewrite E1, E2 in Hc. discriminate.
 Qed.
